@@ -153,7 +153,14 @@ def translated_vs_python(run: lib.Run, facts: dict) -> tuple[bool, str]:
         values = {**objs, "self.role_resolver": rr, "self.strict_types": strict}
         wire = {**{k: rec(v) for k, v in objs.items()}, "self.role_resolver": rr, "self.strict_types": strict}
         add("engine_env", values, {"self.role_resolver.expand": out}, wire, i)
-    lines = [json.dumps({"fn": fn, "args": [proto.enc(a) for a in args], "oracle": proto.build_oracle(*args), "ext": ext}) for fn, args, ext, _ in calls]
+    # what the sinks are handed: the `labels = …` / `payload = …` statements on Decision objects of every shape
+    for i, t in enumerate(itertools.product((True, False), ("permit", "deny"), ([], [{"type": "require_mfa"}]), (None, "mfa"), (None, "r"),
+                                            (None, "p"), ("matched", "obligation_failed", None))):
+        d = reng.Decision(**dict(zip(fields, t)))
+        add("engine_metric_labels", {"d": d}, {}, {"d": rec(d)}, i)
+        for env in ({}, {"subject": {"id": "u", "roles": ["a"], "attrs": {}}, "action": "read", "__strict_types__": True}):
+            add("engine_audit_payload", {"env": env, "d": d}, {}, {"env": env, "d": rec(d)}, i)
+    lines =[json.dumps({"fn": fn, "args": [proto.enc(a) for a in args], "oracle": proto.build_oracle(*args), "ext": ext}) for fn, args, ext, _ in calls]
     p = subprocess.run(["lake", "env", "lean", "--run", "Rbacx/Run/SrcEvalEngine.lean"], cwd=lib.LEAN, input="\n".join(lines) + "\n",
                        capture_output=True, text=True, timeout=1800)
     outs = [ln for ln in p.stdout.split("\n") if ln]
